@@ -49,6 +49,12 @@ var props = map[string]propCfg{
 	"C18": {Level: "exploration",
 		Quick:    tierCfg{Checks: 48000, Shards: 16, Guard: 10 * time.Minute},
 		Thorough: tierCfg{Checks: 1600000, Shards: 16, Guard: 60 * time.Minute}},
+	"C12": {Level: "exploration",
+		Quick:    tierCfg{Checks: 3200, Shards: 16, Guard: 10 * time.Minute},
+		Thorough: tierCfg{Checks: 64000, Shards: 16, Guard: 90 * time.Minute}},
+	"C13": {Level: "fault_enumeration",
+		Quick:    tierCfg{Checks: 1600, Shards: 16, Guard: 10 * time.Minute},
+		Thorough: tierCfg{Checks: 32000, Shards: 16, Guard: 90 * time.Minute}},
 	"C15": {Level: "exploration", DeathIsViolation: true,
 		Quick:    tierCfg{Checks: 96000, Shards: 16, Guard: 10 * time.Minute},
 		Thorough: tierCfg{Checks: 1600000, Shards: 16, Guard: 90 * time.Minute, Race: true}},
